@@ -470,6 +470,71 @@ def part_chars(ck, total):
 
 
 # ------------------------------------------------------------------------------------------------------------
+# gaps: every kind of trivia in every gap (and every pair of gaps) of skeleton statements.  Whatever sits between two
+# tokens - also between the two words of `not in` - must come back from the printer (or the text must be rejected).
+GAP_SKELETONS = [
+    ['x', '=', '(', 'a', 'not', 'in', 'b', ')', '\n'],
+    ['f', '(', 'a', 'not', 'in', 'b', ',', 'k', ':', '[', '1', ',', '2', ']', ')', '\n'],
+    ['x', '=', '[', 'a', ',', 'b', 'not', 'in', 'c', ']', '\n'],
+    ['if', '(', 'a', 'not', 'in', 'b', ')', '\n', 'x', '=', '1', '\n', 'endif', '\n'],
+    ['x', '=', '{', "'k'", ':', 'a', 'not', 'in', 'b', '}', '\n'],
+    ['x', '=', '(', 'a', '?', 'b', ':', 'c', ')', '\n'],
+    ['x', '=', 'a', '.', 'f', '(', 'b', ')', '[', '0', ']', '.', 'g', '(', ')', '\n'],
+    ['x', '+=', '(', 'not', 'a', 'and', '-', 'b', '==', 'c', ')', '\n'],
+    ['foreach', 'i', ',', 'j', ':', 'd', '\n', 'continue', '\n', 'endforeach', '\n'],
+    ['x', '=', '(', 'a', 'or', 'b', ')', '!=', '(', 'c', 'in', 'd', ')', '\n'],
+]
+GAP_TRIVIA = ['', ' ', '  ', '\t', '\n', ' #c\n', '\\\n', ' \\\n  ', '\n\n', '#c\n#d\n']
+
+
+def gap_text(toks, fill):
+    out = []
+    for i, t in enumerate(toks):
+        out.append(t)
+        if i + 1 < len(toks):
+            g = fill.get(i)
+            if g is None:
+                g = ' ' if (t != '\n' and toks[i + 1] != '\n') else ''
+            out.append(g)
+    return ''.join(out)
+
+
+def gaps_job(si):
+    toks = GAP_SKELETONS[si]
+    acc = Acc()
+    n = len(toks) - 1
+    seen = set()
+
+    def run(fill):
+        text = gap_text(toks, fill)
+        if text in seen:
+            return
+        seen.add(text)
+        o = evaluate(text, False)
+        acc.record(text, o, lambda: 'gaps skeleton %d, trivia %r' % (si, sorted(fill.items())))
+        acc.add('gap_texts')
+    run({})
+    for i in range(n):
+        for a in GAP_TRIVIA:
+            run({i: a})
+    for i in range(n):
+        for j in range(i + 1, n):
+            for a in GAP_TRIVIA:
+                for b in GAP_TRIVIA:
+                    run({i: a, j: b})
+    return acc
+
+
+def part_gaps(ck, total):
+    acc = Acc()
+    for a in pmap(gaps_job, list(range(len(GAP_SKELETONS))), chunksize=1):
+        acc.merge(a)
+    need(acc.n.get('accept', 0) > 1000 and acc.n.get('reject', 0) > 1000, 'gap family verdicts one-sided')
+    ck.part('gaps', skeletons=len(GAP_SKELETONS), trivia=len(GAP_TRIVIA), **{k: v for k, v in sorted(acc.n.items())})
+    total.merge(acc)
+
+
+# ------------------------------------------------------------------------------------------------------------
 def report(ck, total):
     """violations shortest-first; every reported case is re-evaluated here (a different process than the worker)"""
     for key in sorted(total.viol, key=lambda k: (total.viol[k][1][0][0][0] if total.viol[k][1] else 0, k)):
@@ -497,6 +562,8 @@ def main():
         T_ = part_corpus(ck, total)
     if ck.want('tokens'):
         N, N2 = part_tokens(ck, total)
+    if ck.want('gaps'):
+        part_gaps(ck, total)
     report(ck, total)
     if UNMET and not ck.n_viol:
         ck.internal('vacuity/self-check failed: ' + '; '.join(UNMET))
